@@ -1,5 +1,5 @@
 '''C03 - scheduling terminates and leaves no worker behind.'''
-from ..rules import sched_rel, sched_worker
+from ..rules import sched_rel, sched_worker, patterns
 
 ID = 'C03'
 CLAIM = '''
@@ -40,10 +40,16 @@ def check(ctx):
     ctx.run(sched_rel.check_lock)
     ctx.run(sched_worker.check_backend_owned)
     ctx.run(sched_rel.check_rel, {'REL-2', 'REL-4'})
+    ctx.run(patterns.check_patterns, ID)
 
 
 from ..variants import sched as _v   # noqa: E402
 
 
-def variants(program):
+def _variants(program):
     return _v.variants(program, ID)
+
+
+def variants(program):
+    from ..variants import patterns as _pv
+    return list(_variants(program)) + _pv.variants(program, ID)
